@@ -228,7 +228,7 @@ def oracle(sch, mode, txs, io):
         for t in ls:
             p = t.split(":")
             have[(p[1], p[2], p[3], p[4], p[6] if len(p) > 6 else "")] += 1
-        if have != want:
+        if have != want and got == exp:
             missing, surplus = want - have, have - want
             style = sorted(set(x[0] for x in list(missing) + list(surplus)))[0]
             out.append(("C08:listener-delivery-" + (style if style in ("c", "uc") else style[0]),
@@ -253,6 +253,33 @@ def oracle(sch, mode, txs, io):
                     p[1], store, ch, hid, dg, ref), k))
                 break
         prev = post
+    return out
+
+
+def oracle_swallow(sch, txs, io):
+    """stream swl: the caller swallows the veto of an entity constraint and commits.  A change vetoed in
+    ProcessPreCommit of store S is rejected work: no listener of S may ever be told about it."""
+    out = []
+    for k, (ttoks, a) in enumerate(zip(txs, io)):
+        tx = parse_tx(ttoks)
+        ls = [t for t in a["other"] if t.startswith("LS:")]
+        ca = sum(int(t[3:]) for t in a["other"] if t.startswith("CA:"))
+        tc = sum(int(t[3:]) for t in a["other"] if t.startswith("TC:"))
+        if "ASYNC-TIMEOUT" in a["other"]:
+            out.append(("C08:async-timeout", "asynchronous listeners / commit actions did not arrive within 10 s", k))
+        if not a["commit"]:
+            if a["events"] or ls or ca or tc:
+                out.append(("C08:events-after-rollback", "listeners / hooks ran for a rolled-back transaction: %s CA %d TC %d" % (
+                    (a["events"] + ls)[:4], ca, tc), k))
+            continue
+        if ca != 2 or tc != 1:
+            out.append(("C08:commit-action-count" if ca != 2 else "C08:tx-complete-count",
+                        "committed transaction: %d commit-action executions (2 registered), %d tx-complete runs" % (ca, tc), k))
+        vetoed = set(tx["vetoes"])
+        bad = [e for e in a["events"] if tuple(e.split(":")[1:4]) in vetoed]
+        bad += [t for t in ls if tuple(t.split(":")[2:5]) in vetoed]
+        if bad:
+            out.append(("C08:vetoed-change-delivered", "a change vetoed in ProcessPreCommit was announced after the commit: %s" % bad[:4], k))
     return out
 
 
@@ -297,7 +324,7 @@ def main(argv):
         tmp = os.path.join(shm, "verif_c08_%d" % os.getpid())
         os.makedirs(tmp, exist_ok=True)
     cases_path = os.path.join(c.work, "cases.txt")
-    n = 9000 if c.thorough else 700
+    n = 28000 if c.thorough else 2470
     if c.replay:
         rp = json.load(open(c.replay))
         rin = os.path.join(c.work, "replay_in.txt")
@@ -331,12 +358,18 @@ def main(argv):
             continue
         mode, plain = split_mode(case)
         sch, txs = storefam.split_case(plain)
-        io, mo = storefam.parse_obs(i), storefam.parse_obs(m)
-        ntx += len(io)
+        io = storefam.parse_obs(i)
+        mo = storefam.parse_obs(m) if mode != "swl" else []
+        ntx += len(io) if mode != "swl" else 0
         nev += sum(len(t["events"]) for t in io)
         ndel += sum(1 for t in io for x in t["other"] if x.startswith("LS:"))
         if any(t["commit"] and len(t["events"]) > 1 for t in io):
             distinct.add(case)
+        if mode == "swl":
+            for key, desc, k in oracle_swallow(sch, txs, io):
+                c.violation(key, desc, dict(case=case, impl=i, tx=k, gen=dict(gen, index=idx)))
+            ntx += len(io)
+            continue
         reported = False
         for key, desc, k in oracle(sch, mode, txs, io):
             c.violation(key, desc, dict(case=case, impl=i, model=m, tx=k, gen=dict(gen, index=idx)))
@@ -365,7 +398,8 @@ def main(argv):
     c.cov["rule"] = ("state-aware seeded histories (2-6 transactions x 1-3 operation groups: create incl. prerequisite fk targets, full and "
                      "field-checker update, delete incl. cascades, link ops, through parent, plain child and extended child stores; several changes "
                      "of one entity per transaction; caller error 6%, failing pre-commit action 5%, veto 9%, blind operation 7%) over three schema "
-                     "wirings, through Db.Update and a Db.Batch stream; 26 recording listeners per store (4 filtering styles x 3 change types x "
+                     "wirings, through Db.Update, a Db.Batch stream and a stream whose caller swallows constraint vetoes and commits (a vetoed change must "
+                     "never be announced); 26 recording listeners per store (4 filtering styles x 3 change types x "
                      "sync/async, typed and untyped constraint), 2 commit actions per transaction, 1 tx-complete listener; asynchronous deliveries "
                      "awaited. Non-trivial: a history with a committed transaction that delivered more than one event; distinct by case text.")
     ks = sorted(set((0, len(cases) // 2, max(0, len(cases) - 1))))
